@@ -108,3 +108,11 @@ reg('C16', 'runtime monitoring: fresh-interpreter monitor with audit hooks, warn
     'BeautifulSoup.select / soupsieve.select answers across all orders (incl. comment/doctype/text-sensitive selectors) '
     'are the oracle.',
     'Trusted: -B and PYTHONPATH=tree under test in the child; answers compared as (name, id) lists.')
+reg('C17', 'runtime monitoring: law monitor + reference definitions for HTML state pseudo-classes, known findings by defect-model switch',
+    'On ~1.4*10^4 generated form documents per quick run (five materialisations incl. XHTML, nested forms, iframes, radio '
+    'groups, bidi text) the sets returned by the real select() for 17 state pseudo-classes must satisfy the partition/'
+    'coverage laws of the statement and equal independent definitions (first submit button per form, radio groups, '
+    'placeholder rule, range coverage via an own calendar), within the element\'s own document; select() membership must '
+    'equal per-element match().  Two open findings are recognised only when the observed sets equal the reference '
+    'prediction with the finding\'s switch on.',
+    'Trusted: vlib/refhtml.py definitions and calendar; unspecified corners listed in ASSUMPTIONS are not compared.')
